@@ -269,9 +269,32 @@ func ParseContractFile(repo, rel string) (*ContractFile, error) {
 	for i, l := range strings.Split(string(data), "\n") {
 		t := strings.TrimSpace(l)
 		if strings.HasPrefix(t, "//@") {
-			body := strings.TrimPrefix(t, "//@")
-			// strip trailing "// comment" only when preceded by two spaces and not in a string
-			lines = append(lines, rawLine{strings.TrimRight(body, " \t"), i + 1})
+			body := strings.TrimRight(strings.TrimPrefix(t, "//@"), " \t")
+			if bt := strings.TrimSpace(body); strings.HasPrefix(bt, "include ") {
+				f := strings.Fields(bt)
+				if len(f) < 2 {
+					return nil, fmt.Errorf("%s:%d: include needs a path", rel, i+1)
+				}
+				inc, err := os.ReadFile(filepath.Join(repo, f[1]))
+				if err != nil {
+					return nil, fmt.Errorf("%s:%d: %v", rel, i+1, err)
+				}
+				text := string(inc)
+				for _, kv := range f[2:] {
+					p := strings.SplitN(kv, "=", 2)
+					if len(p) == 2 {
+						text = strings.ReplaceAll(text, "@"+p[0]+"@", p[1])
+					}
+				}
+				for _, il := range strings.Split(text, "\n") {
+					if strings.HasPrefix(strings.TrimSpace(il), "#") {
+						continue
+					}
+					lines = append(lines, rawLine{strings.TrimRight(il, " \t"), i + 1})
+				}
+				continue
+			}
+			lines = append(lines, rawLine{body, i + 1})
 		}
 	}
 	// group into blocks: a block starts with a line whose trimmed text begins with a keyword
@@ -483,8 +506,9 @@ func desugar(s string) string {
 			}
 			inner := s[i+1 : j]
 			// EqT(a, b) sugar
-			isEqT := ch == '(' && (strings.HasSuffix(out.String(), "EqT") || strings.HasSuffix(out.String(), "EqTP"))
-			if strings.Contains(inner, "==>") || strings.Contains(inner, "forall ") || strings.Contains(inner, "exists ") || strings.Contains(inner, "EqT") || isEqT {
+			isEqT := ch == '(' && (strings.HasSuffix(out.String(), "EqT") || strings.HasSuffix(out.String(), "EqTP") || strings.HasSuffix(out.String(), "Panics") || strings.HasSuffix(out.String(), "Returns"))
+			isEq := ch == '(' && strings.HasSuffix(out.String(), "Eq") && !strings.HasSuffix(out.String(), ".Eq") || ch == '(' && strings.HasSuffix(out.String(), "verifspec.Eq")
+			if isEq || strings.Contains(inner, "forall ") || strings.Contains(inner, "exists ") || strings.Contains(inner, "EqT") || strings.Contains(inner, "Panics(") || strings.Contains(inner, "Returns(") || isEqT {
 				ti := strings.TrimSpace(inner)
 				if ch == '(' && (strings.HasPrefix(ti, "forall ") || strings.HasPrefix(ti, "exists ")) {
 					inner = desugar(ti)
@@ -493,7 +517,9 @@ func desugar(s string) string {
 					for k := range parts {
 						parts[k] = desugar(parts[k])
 						if isEqT {
-							parts[k] = "func() any { return " + parts[k] + " }"
+							parts[k] = "func() any { return verifspec.W(" + parts[k] + ") }"
+						} else if isEq {
+							parts[k] = "verifspec.W(" + parts[k] + ")"
 						}
 					}
 					inner = strings.Join(parts, ", ")
